@@ -411,6 +411,41 @@ def offline_gap(ix, rep, mon):
         rep.ok('R-UNBOUND', f.module.rel, sym, 'offline:locals', 'no local can be unbound on a one-sample trace', f.node.lineno)
 
 
+NUMERIC_SETTINGS = ('tolerance', 'sampling_tolerance', 'previous_time', 'timestamp')   # quantities for which 0 is an ordinary value
+
+
+def settings_truthiness(ix, rep, classes):
+    """the property quantifies over tolerances in [0,1] and over time-stamps starting anywhere: 0 is an ordinary tolerance, 0.0 an ordinary
+    time-stamp.  A setting or a time quantity used for its truth value (`tol or DEFAULT`, `if not previous_time`) treats that value as
+    "not given".  Checked in every method on the sampling path of the interpreters and of the specification classes."""
+    from sa.rules.truthy import _truth_uses
+    n = 0
+    seen = set()
+    for cls in classes:
+        for k in ix.mro(cls):
+            for mname, f in sorted(getattr(k, 'methods', {}).items()):
+                if id(f) in seen:
+                    continue
+                src = ast.unparse(f.node)
+                if not ('sampling' in mname or 'sampling' in src or mname in ('update', 'evaluate', 'reset')):
+                    continue
+                seen.add(id(f))
+                numeric = {a.arg for a in f.node.args.args if a.arg in NUMERIC_SETTINGS}
+                bad = None
+                for e in _truth_uses(f.node):
+                    if isinstance(e, ast.Name) and e.id in numeric:
+                        bad = e
+                    elif isinstance(e, ast.Attribute) and isinstance(e.value, ast.Name) and e.value.id == 'self' and e.attr in NUMERIC_SETTINGS:
+                        bad = e
+                n += 1
+                if bad is not None:
+                    rep.fail('R-TRUTHY', f.module.rel, f.qual, 'setting:%s' % ast.unparse(bad), '`%s` is used for its truth value: the legal value 0 (tolerance 0 = every gap must be '
+                             'exactly one period; time-stamp 0.0) is treated as "not given" and silently replaced or skipped' % ast.unparse(bad), bad.lineno)
+                else:
+                    rep.ok('R-TRUTHY', f.module.rel, f.qual, 'settings', 'no sampling setting or time quantity is tested by truthiness', f.node.lineno)
+    return n
+
+
 def _aff(p):
     return ('n' if p[0] == 1 else '%d*n' % p[0] if p[0] else '') + ('%+d' % p[1] if p[1] or not p[0] else '')
 
@@ -426,8 +461,13 @@ def check(ix, rep):
     from sa.rules import units
     nf = units.check_forwarding_calls(ix, rep, lambda name: 'sampling' in name)
     rep.floor('forwarding calls of the sampling settings', nf, 2)
+    spec = ix.find_class('rtamt.spec.abstract_specification', 'AbstractSpecification')
+    nt = settings_truthiness(ix, rep, [on.cls, off.cls, spec])
+    rep.floor('methods on the sampling path checked for truthiness of settings', nt, 8)
     nr = units.check_forwarding_reach(ix, rep)
     rep.floor('interpreters a setting has to reach', nr, 2)
+    ng = units.check_counted_getters(ix, rep)
+    rep.floor('interpreters a counted quantity is read from', ng, 2)
     # reset restarts the counter (shared with C10)
     rs = [f for f in (ix.resolve_method(on.cls, 'reset'),) if f]
     src = ast.unparse(rs[0].node).replace(' ', '') if rs else ''
